@@ -416,7 +416,11 @@ CHECKS = {
                       "Verdicts: no reachable panic, the serve call returns ErrServerClosed, every listener is stopped, an established session's client "
                       "observes 'finished', accepted connections are released, no serving goroutine is left. (2) Callback discipline from the symbolic "
                       "handleChannel runs of C14: Established exactly once iff the session reached established and before any handler, Finished exactly "
-                      "once afterwards for the same id - also when the client drops the connection abruptly.",
+                      "once afterwards for the same id - also when the client drops the connection abruptly. (3) One whole server-side session on the real wire "
+                      "transports: consumeTransports / handleChannel / EstablishSession / dispatch / FinishSession over websocketTransport (gorilla model) and over "
+                      "tcpTransport (json codec models, real ctxConn poll loop, socket read deadlines as timers on a concrete clock), the peer being a cooperative "
+                      "byte-level client: every message handled once and answered on the same connection; on stop the client is sent 'finished', the "
+                      "connection is closed, the callbacks fired once each, nothing is left running.",
         "level_note": "Trusted: SSA->SMT executor, bounded cooperative scheduler (switches at blocking points, <= P pre-emptions at synchronisation operations; "
                       "no instruction-level races, e.g. the unsynchronised srv.shutdown field), z3. Bounds: <= 2 listeners, <= 1 session, P <= 1.",
         "runs": [
@@ -424,8 +428,10 @@ CHECKS = {
              "reach": ["c18:closed"], "threads": True, "tier": "quick"},
             {"harness": "HarnessC18StartStop", "grid": {"when": [0, 1], "closeerr": [0, 1]}, "params": {"sched": 1, "P": 0, "listeners": 2},
              "reach": ["c18:closed"], "threads": True, "tier": "quick"},
-            {"harness": "HarnessC18WS", "params": {"sched": 1, "msgs": 1}, "reach": ["c18:ws-session-settled"], "threads": True, "tier": "quick"},
-            {"harness": "HarnessC18WS", "grid": {"msgs": [0, 2], "P": [0, 1]}, "params": {"sched": 1}, "reach": ["c18:ws-session-settled"], "threads": True, "tier": "thorough", "skip": [{"msgs": 2, "P": 1}], "timeout": 3000},
+            {"harness": "HarnessC18WS", "params": {"sched": 1, "msgs": 1}, "reach": ["c18:wire-session-settled"], "threads": True, "tier": "quick"},
+            {"harness": "HarnessC18WS", "params": {"sched": 1, "msgs": 1, "tcp": 1, "cclock": 1}, "reach": ["c18:wire-session-settled"], "threads": True, "tier": "quick"},
+            {"harness": "HarnessC18WS", "grid": {"P": [0, 1]}, "params": {"sched": 1, "msgs": 2, "tcp": 1, "cclock": 1}, "reach": ["c18:wire-session-settled"], "threads": True, "tier": "thorough"},
+            {"harness": "HarnessC18WS", "grid": {"msgs": [0, 2], "P": [0, 1]}, "params": {"sched": 1}, "reach": ["c18:wire-session-settled"], "threads": True, "tier": "thorough", "skip": [{"msgs": 2, "P": 1}], "timeout": 3000},
             {"harness": "HarnessC18StartStop", "params": {"sched": 1, "P": 0, "listeners": 2, "slowlisten": 1, "when": 0},
              "reach": ["c18:closed"], "threads": True},
             {"harness": "HarnessC14Serve", "params": {"enccfg": 2, "transport": 2, "depth": 4, "schemecfg": 0, "compcfg": 0, "sendfails": 1},
